@@ -3,7 +3,11 @@
    handed to Sample.from_lists; fx / drop0 select the pinned code (false / true) or the proposed fixes. *)
 From Coq Require Import List String Bool Arith.
 From PAFC09 Require Import Model Lib Proofs1 Proofs2 Proofs3 Proofs4 Proofs5 Proofs6 Proofs7 Proofs8 Witness.
+From Coq Require Import QArith Permutation Sorted.
+From PAFC09 Require Import Quantile Stats ProofsQ1 ProofsQ2 ProofsQ3.
 Import ListNotations.
+Open Scope list_scope.
+Open Scope nat_scope.
 
 (* every well-formed model tree (distinct "."-free attribute names per node, any nesting, sharing, tuples,
    constants, any creation order) yields a walk that satisfies the hypotheses used below *)
@@ -160,6 +164,127 @@ Theorem C09_roundtrip_csv : forall (V cell : Type) (fmt : V -> cell) (parse : ce
     res_bind (csv_roundtrip_pos fmt parse add true tps Ws (from_lists true Ws rows)) (observe tps Ws) = Ok (expected rows).
 Proof. exact @csv_pos_fixed. Qed.
 
+(* ================================================================ summary statistics (Quantile.v, Stats.v)
+   q_quantile l q = quantile(x, q, weights)[0] of pdf.py over exact rationals, l = the (value, weight) pairs of one parameter
+   in sample order; q_quantile_sorted s q = the same on ANY arrangement s that np.argsort may produce (sorted by value,
+   ties in any order).  trunc_total s = the weight of all samples but the last one of s (the normalisation of the code:
+   the weight of the sample of largest value is left out; it must be positive or numpy divides by zero). *)
+
+(* the quantile lies between two ADJACENT sorted sample values (the code interpolates); both are sample values *)
+Theorem C09_quantile_between_adjacent : forall (l : list (Q * Q)) (q : Q),
+  weights_ok l -> (0 < trunc_total (q_sort l))%Q -> (0 <= q)%Q -> (q <= 1)%Q ->
+  exists r a b, q_quantile l q = QOk r /\ adjacent_or_last (map fst (q_sort l)) a b /\
+                In a (map fst l) /\ In b (map fst l) /\ (a <= r <= b)%Q.
+Proof. exact quantile_bracket. Qed.
+
+Theorem C09_quantile_any_argsort_between_adjacent : forall (s : list (Q * Q)) (q : Q),
+  StronglySorted vle s -> weights_ok s -> (0 < trunc_total s)%Q -> (0 <= q)%Q -> (q <= 1)%Q ->
+  exists r a b, q_quantile_sorted s q = QOk r /\ adjacent_or_last (map fst s) a b /\ (a <= r <= b)%Q.
+Proof. exact quantile_sorted_bracket. Qed.
+
+(* monotone in the level *)
+Theorem C09_quantile_monotone : forall (l : list (Q * Q)) (q1 q2 r1 r2 : Q),
+  weights_ok l -> (0 < trunc_total (q_sort l))%Q -> (0 <= q1)%Q -> (q1 <= q2)%Q -> (q2 <= 1)%Q ->
+  q_quantile l q1 = QOk r1 -> q_quantile l q2 = QOk r2 -> (r1 <= r2)%Q.
+Proof. exact quantile_mono. Qed.
+
+Theorem C09_quantile_any_argsort_monotone : forall (s : list (Q * Q)) (q1 q2 r1 r2 : Q),
+  StronglySorted vle s -> weights_ok s -> (0 < trunc_total s)%Q -> (0 <= q1)%Q -> (q1 <= q2)%Q -> (q2 <= 1)%Q ->
+  q_quantile_sorted s q1 = QOk r1 -> q_quantile_sorted s q2 = QOk r2 -> (r1 <= r2)%Q.
+Proof. exact quantile_sorted_mono. Qed.
+
+(* values_at_sigma / median_pdf: lower(sigma) <= median <= upper(sigma) for every pair of levels around 1/2 *)
+Theorem C09_stats_lower_median_upper : forall (l : list (Q * Q)) (qlo qhi lo m hi : Q),
+  weights_ok l -> (0 < trunc_total (q_sort l))%Q -> (0 <= qlo)%Q -> (qlo <= 1 # 2)%Q -> (1 # 2 <= qhi)%Q -> (qhi <= 1)%Q ->
+  q_quantile l qlo = QOk lo -> q_quantile l (1 # 2) = QOk m -> q_quantile l qhi = QOk hi -> (lo <= m <= hi)%Q.
+Proof. exact lower_median_upper. Qed.
+
+(* order of the samples: irrelevant when samples of equal value are equal samples ... *)
+Theorem C09_quantile_permutation_partial : forall (l l' : list (Q * Q)) (q : Q),
+  Permutation l l' -> values_distinct l -> q_quantile l q = q_quantile l' q.
+Proof. exact quantile_permutation. Qed.
+
+(* ... but with tied values the answer depends on the order in which the samples are given: full statement REFUTED *)
+Theorem C09_quantile_permutation_refuted :
+  exists (l l' : list (Q * Q)) (q : Q), Permutation l l' /\ weights_ok l /\ (0 < trunc_total (q_sort l))%Q /\ (0 <= q <= 1)%Q /\
+                 ~ qres_equiv (q_quantile l q) (q_quantile l' q).
+Proof. exact quantile_permutation_refuted. Qed.
+
+(* a sample of weight zero is not ignored (its value is an ordinate of the interpolation): REFUTED *)
+Theorem C09_quantile_zero_weight_refuted :
+  exists (l : list (Q * Q)) (p : Q * Q) (q : Q), (snd p == 0)%Q /\ weights_ok (p :: l) /\ (0 < trunc_total (q_sort l))%Q /\
+                (0 < trunc_total (q_sort (p :: l)))%Q /\ (0 <= q <= 1)%Q /\ ~ qres_equiv (q_quantile (p :: l) q) (q_quantile l q).
+Proof. exact quantile_zero_weight_refuted. Qed.
+
+(* "the median has at least half of the weight on each side": REFUTED on both sides (largest sample's weight left out;
+   interpolation) *)
+Theorem C09_median_half_weight_below_refuted :
+  exists (l : list (Q * Q)) (m : Q), weights_ok l /\ (0 < trunc_total (q_sort l))%Q /\ q_quantile l (1 # 2) = QOk m /\
+              ~ (total_weight l * (1 # 2) <= weight_le l m)%Q.
+Proof. exact median_half_below_refuted. Qed.
+
+Theorem C09_median_half_weight_above_refuted :
+  exists (l : list (Q * Q)) (m : Q), weights_ok l /\ (0 < trunc_total (q_sort l))%Q /\ q_quantile l (1 # 2) = QOk m /\
+              ~ (total_weight l * (1 # 2) <= weight_ge l m)%Q.
+Proof. exact median_half_above_refuted. Qed.
+
+(* summary statistics survive persistence: equal observed (parameter, log-likelihood, weight) lists, equal statistics ... *)
+Theorem C09_stats_same_observed : forall (V : Type) (add sub mul div : V -> V -> V) (leb ltb eqb : V -> V -> bool) (isnan : V -> bool)
+    (zero one c99 half : V) (gtb : V -> V -> bool) (q1lo q1hi q3lo q3hi : V) (ucs : nat) (arrange : nat -> list (V * V) -> list (V * V))
+    (tps : list path) (Ws : list (path * nat)) (S1 S2 : list (sample V)),
+  observe tps Ws S1 = observe tps Ws S2 ->
+  sample_stats add sub mul div leb ltb eqb isnan zero one c99 half gtb q1lo q1hi q3lo q3hi ucs arrange tps Ws S1
+  = sample_stats add sub mul div leb ltb eqb isnan zero one c99 half gtb q1lo q1hi q3lo q3hi ucs arrange tps Ws S2.
+Proof. exact @stats_same_observed. Qed.
+
+(* ... hence median_pdf, values_at_sigma and errors_at_sigma (1 and 3 sigma) of the samples reloaded from samples.csv are
+   those of the samples in memory, for every well-formed model tree, every sample list and every arithmetic (Q, binary64) *)
+Theorem C09_stats_survive_csv : forall (V : Type) (add sub mul div : V -> V -> V) (leb ltb eqb : V -> V -> bool) (isnan : V -> bool)
+    (zero one c99 half : V) (gtb : V -> V -> bool) (q1lo q1hi q3lo q3hi : V) (ucs : nat) (arrange : nat -> list (V * V) -> list (V * V))
+    (cell : Type) (fmt : V -> cell) (parse : cell -> V),
+  (forall v, parse (fmt v) = v) ->
+  forall (t : node) (rows : list (srow V)),
+    wf_root t ->
+    (all_flat (sorted_walk t) -> names_injective (tuple_paths [] t) (sorted_walk t)) ->
+    rows_ok (sorted_walk t) rows ->
+    res_bind (csv_roundtrip_pos fmt parse add true (tuple_paths [] t) (sorted_walk t) (from_lists true (sorted_walk t) rows))
+             (sample_stats add sub mul div leb ltb eqb isnan zero one c99 half gtb q1lo q1hi q3lo q3hi ucs arrange
+                           (tuple_paths [] t) (sorted_walk t))
+    = sample_stats add sub mul div leb ltb eqb isnan zero one c99 half gtb q1lo q1hi q3lo q3hi ucs arrange
+                   (tuple_paths [] t) (sorted_walk t) (from_lists true (sorted_walk t) rows)
+    /\ sample_stats add sub mul div leb ltb eqb isnan zero one c99 half gtb q1lo q1hi q3lo q3hi ucs arrange
+                    (tuple_paths [] t) (sorted_walk t) (from_lists true (sorted_walk t) rows)
+       = Ok (stats_observed add sub mul div leb ltb eqb isnan zero one c99 half gtb q1lo q1hi q3lo q3hi ucs arrange (expected rows)).
+Proof. exact @stats_survive_csv. Qed.
+
+(* ... and of the samples reloaded from database rows (all samples, or the default minimised list) *)
+Theorem C09_stats_survive_db : forall (V : Type) (add sub mul div : V -> V -> V) (leb ltb eqb : V -> V -> bool) (isnan : V -> bool)
+    (zero one c99 half : V) (gtb : V -> V -> bool) (q1lo q1hi q3lo q3hi : V) (ucs : nat) (arrange : nat -> list (V * V) -> list (V * V))
+    (t : node) (rows : list (srow V)),
+  wf_root t -> rows_ok (sorted_walk t) rows ->
+  let S := from_lists true (sorted_walk t) rows in
+  let SS := sample_stats add sub mul div leb ltb eqb isnan zero one c99 half gtb q1lo q1hi q3lo q3hi ucs arrange
+                         (tuple_paths [] t) (sorted_walk t) in
+  res_bind (db_roundtrip true S) SS = SS S
+  /\ res_bind (db_roundtrip true (minimise add gtb S)) SS = SS (minimise add gtb S).
+Proof. exact @stats_survive_db. Qed.
+
+(* the same for ANY quantity computed from what a reader observes (max_log_likelihood vector, covariance, log-evidence
+   estimates from weights, ...) *)
+Theorem C09_derived_survive_csv : forall (V A : Type) (F : observed V -> A) (cell : Type) (fmt : V -> cell) (parse : cell -> V)
+    (add : V -> V -> V),
+  (forall v, parse (fmt v) = v) ->
+  forall (t : node) (rows : list (srow V)),
+    wf_root t ->
+    (all_flat (sorted_walk t) -> names_injective (tuple_paths [] t) (sorted_walk t)) ->
+    rows_ok (sorted_walk t) rows ->
+    res_bind (csv_roundtrip_pos fmt parse add true (tuple_paths [] t) (sorted_walk t) (from_lists true (sorted_walk t) rows))
+             (derived F (tuple_paths [] t) (sorted_walk t))
+    = derived F (tuple_paths [] t) (sorted_walk t) (from_lists true (sorted_walk t) rows)
+    /\ derived F (tuple_paths [] t) (sorted_walk t) (from_lists true (sorted_walk t) rows) = Ok (F (expected rows)).
+Proof. exact @derived_survive_csv. Qed.
+
+
 Print Assumptions C09_shapes.
 Print Assumptions C09_roundtrip_db.
 Print Assumptions C09_roundtrip_csv_legacy_partial.
@@ -172,3 +297,17 @@ Print Assumptions C09_value_per_path_recreated.
 Print Assumptions C09_json_latest_wins.
 Print Assumptions C09_tree_csv.
 Print Assumptions C09_roundtrip_csv.
+Print Assumptions C09_quantile_between_adjacent.
+Print Assumptions C09_quantile_any_argsort_between_adjacent.
+Print Assumptions C09_quantile_monotone.
+Print Assumptions C09_quantile_any_argsort_monotone.
+Print Assumptions C09_stats_lower_median_upper.
+Print Assumptions C09_quantile_permutation_partial.
+Print Assumptions C09_quantile_permutation_refuted.
+Print Assumptions C09_quantile_zero_weight_refuted.
+Print Assumptions C09_median_half_weight_below_refuted.
+Print Assumptions C09_median_half_weight_above_refuted.
+Print Assumptions C09_stats_same_observed.
+Print Assumptions C09_stats_survive_csv.
+Print Assumptions C09_stats_survive_db.
+Print Assumptions C09_derived_survive_csv.
